@@ -23,6 +23,8 @@ EXTENDS StreamsDef, Json
 CONSTANTS Caps1, MaxItems1,     \* bounds for trees with one pipe
           CapsN, MaxItemsN,     \* bounds for trees with several pipes
           MaxItems3,            \* item bound for trees with three or more sources
+          SplitCount,           \* SEEDED DEFECT (must-fail configuration): the closed-children counter of a copy is read and written in
+                                \* two steps (`p.closedNum++` instead of atomic.AddUint32), so concurrent closes can lose an update
           ErrItems1, ErrItemsN  \* TRUE: one item of a sequence may be an error item
 
 Shapes == ndJsonDeserialize("trees.ndjson")
@@ -76,7 +78,18 @@ LStep(a) == /\ lst[a] \in {"idle", "recv"}
                     ELSE /\ lst' = [lst EXCEPT ![a] = IF o.v = EOFV THEN "eof" ELSE "idle"]
                          /\ G' = Obs(G1, T, Ev("ret", a, "recv", o.v, IF o.v = EOFV THEN "eof" ELSE "item"))
             /\ UNCHANGED <<T, wst, wi>>
-LClose(a) == /\ lst[a] \in {"idle", "eof"}
+SplitHere(a) == SplitCount /\ Kd(T, a) = "child" /\ ~ArrLike(T, a)
+LCloseRead(a) == /\ SplitHere(a) /\ lst[a] \in {"idle", "eof"}
+                 /\ M' = [M EXCEPT !.crd[a] = M.closedNum[Src1(T, a)], !.cur[a] = 0] /\ lst' = [lst EXCEPT ![a] = "closing"]
+                 /\ G' = Obs(G, T, Ev("call", a, "close", 0, ""))
+                 /\ UNCHANGED <<T, wst, wi>>
+LCloseWrite(a) == /\ lst[a] = "closing"
+                  /\ LET p == Src1(T, a)  M1 == [M EXCEPT !.closedNum[p] = M.crd[a] + 1] IN
+                       M' = IF M.crd[a] + 1 = T[p].n THEN CloseR(M1, T, Src1(T, p)) ELSE M1
+                  /\ lst' = [lst EXCEPT ![a] = "closed"]
+                  /\ G' = Obs(G, T, Ev("ret", a, "close", 0, "ok"))
+                  /\ UNCHANGED <<T, wst, wi>>
+LClose(a) == /\ ~SplitHere(a) /\ lst[a] \in {"idle", "eof"}
              /\ M' = CloseR(M, T, a) /\ lst' = [lst EXCEPT ![a] = "closed"]
              /\ G' = Obs(Obs(G, T, Ev("call", a, "close", 0, "")), T, Ev("ret", a, "close", 0, "ok"))
              /\ UNCHANGED <<T, wst, wi>>
@@ -88,7 +101,7 @@ Terminal == /\ \A p \in Pipes(T) : wst[p] = "done"
             /\ \A a \in Leaves(T) : lst[a] \in {"eof", "closed"}
             /\ \A f \in Fwd(T) : FwdStep(M, T, f) = {}
 Next == \/ \E p \in Pipes(T) : WSend(p) \/ WStep(p) \/ WClose(p)
-        \/ \E a \in Leaves(T) : LStep(a) \/ LClose(a)
+        \/ \E a \in Leaves(T) : LStep(a) \/ LClose(a) \/ LCloseRead(a) \/ LCloseWrite(a)
         \/ \E f \in Fwd(T) : FStep(f)
         \/ (Terminal /\ UNCHANGED vars)
 Spec == Init /\ [][Next]_vars
